@@ -67,6 +67,25 @@ func wrapInt(x IntType) IntType { return x }
 var pegStatementRules = []string{"dicescript", "stmtSt", "stmtRoot", "stmtLines", "stmtWithBlock", "stmtIf", "stmtWhile", "stmtFunc", "nextLine", "block", "stmtElse",
 	"st_expr", "st_assign_multi", "st_modify_multi_1", "st_modify_multi_rest"}
 
+// jsonInt / jsonFloat / jsonStr: the value the JSON document held by b has at a tag path such as "t", "v", "v.expr"
+// (encoding/json document model of dsvc: what Marshal wrote at a path is what Unmarshal reads there).
+func jsonInt(b []byte, path string) IntType   { panic("spec only") }
+func jsonFloat(b []byte, path string) float64 { panic("spec only") }
+func jsonStr(b []byte, path string) string    { panic("spec only") }
+
+// lemmaJSONRoundTripScalar: decoding what ToJSONRaw wrote for an int, float or string restores the type tag and the
+// value (C09).  Proved by dsvc from the contracts of ToJSONRaw and UnmarshalJSON: a two-call lemma.
+func lemmaJSONRoundTripScalar(v *VMValue, out *VMValue) bool {
+	b, err := v.ToJSONRaw(nil)
+	if err != nil {
+		return true
+	}
+	if out.UnmarshalJSON(b) != nil {
+		return true
+	}
+	return out.TypeId == v.TypeId && out.Value == v.Value
+}
+
 // sameFloat(a, b): identical float values (spec only; Go's == is not reflexive on NaN).
 func sameFloat(a, b float64) bool { panic("spec only") }
 
@@ -937,6 +956,12 @@ func (*VMValue).UnmarshalJSON
   loop 1
     invariant forall k in [0, rangeIdx): v1.Value.List[k] != nil
   ensures [C10] result == nil ==> wfValue(v)
+  ensures [C09] result == nil ==> IntType(v.TypeId) == jsonInt(input, "t")
+  ensures [C09] result == nil && v.TypeId == VMTypeInt ==> v.Value.(IntType) == jsonInt(input, "v")
+  ensures [C09] result == nil && v.TypeId == VMTypeFloat ==> sameFloat(v.Value.(float64), jsonFloat(input, "v"))
+  ensures [C09] result == nil && v.TypeId == VMTypeString ==> v.Value.(string) == jsonStr(input, "v")
+  ensures [C09] result == nil && v.TypeId == VMTypeComputedValue ==> v.Value.(*ComputedData).Expr == jsonStr(input, "v.expr")
+  ensures [C09] result == nil && v.TypeId == VMTypeFunction ==> v.Value.(*FunctionData).Expr == jsonStr(input, "v.expr") && v.Value.(*FunctionData).Name == jsonStr(input, "v.name")
   ensures [C10] result == nil && v.TypeId == VMTypeArray ==> forall k in [0, len(v.Value.(*ArrayData).List)): v.Value.(*ArrayData).List[k] != nil
   ensures [C10] result == nil ==> v.TypeId == VMTypeInt || v.TypeId == VMTypeFloat || v.TypeId == VMTypeString || v.TypeId == VMTypeNull || v.TypeId == VMTypeComputedValue || v.TypeId == VMTypeArray || v.TypeId == VMTypeDict || v.TypeId == VMTypeFunction || v.TypeId == VMTypeNativeFunction || v.TypeId == VMTypeNativeObject
 
@@ -949,7 +974,18 @@ func (*VMValue).ToJSONRaw
   props C09 C10
   nilrecv
   ensures [C09] v == nil ==> result1 != nil
-  ensures [C09] result1 == nil ==> len(result0) > 0 || true
+  ensures [C09] result1 == nil && (v.TypeId == VMTypeInt || v.TypeId == VMTypeFloat || v.TypeId == VMTypeString || v.TypeId == VMTypeNull || v.TypeId == VMTypeComputedValue || v.TypeId == VMTypeFunction || v.TypeId == VMTypeNativeFunction || v.TypeId == VMTypeNativeObject) ==> jsonInt(result0, "t") == IntType(v.TypeId)
+  ensures [C09] result1 == nil && v.TypeId == VMTypeInt ==> jsonInt(result0, "v") == v.Value.(IntType)
+  ensures [C09] result1 == nil && v.TypeId == VMTypeFloat ==> sameFloat(jsonFloat(result0, "v"), v.Value.(float64))
+  ensures [C09] result1 == nil && v.TypeId == VMTypeString ==> jsonStr(result0, "v") == v.Value.(string)
+  ensures [C09] result1 == nil && v.TypeId == VMTypeComputedValue ==> jsonStr(result0, "v.expr") == v.Value.(*ComputedData).Expr
+  ensures [C09] result1 == nil && v.TypeId == VMTypeFunction ==> jsonStr(result0, "v.expr") == v.Value.(*FunctionData).Expr && jsonStr(result0, "v.name") == v.Value.(*FunctionData).Name
+
+func lemmaJSONRoundTripScalar
+  props C09
+  requires v != nil && out != nil && v != out && !sharedBuiltin(out)
+  requires v.TypeId == VMTypeInt || v.TypeId == VMTypeFloat || v.TypeId == VMTypeString
+  ensures [C09] result
 
 // ---- roll.peg.go / parser_errors.go: positions and error rendering (C19) ----
 
